@@ -539,87 +539,105 @@ Fixpoint cook (bits : option Z) (uns : bool) (env : string -> option Z) (dot : Z
       end
   end.
 
-Definition result := res (list Z * list item * list string).
+(* bytes, Compiler.repetitions_compiled afterwards; the statements as left; diagnostics *)
+Definition result := res ((list Z * Z) * list item * list string).
+
+(* MAX_REPETITIONS (commit 5b48d07): the iterations of ALL '.repeat' blocks of one assembly are counted
+   in Compiler.repetitions_compiled; the iteration that would make the count exceed the budget reports
+   'value-out-of-bounds' and leaves its loop.  [None] = no budget (the bare mechanism). *)
+Definition over (budget : option Z) (c : Z) : bool :=
+  match budget with Some m => Z.ltb m c | None => false end.
 
 Section Level.
-  (* compile_block on a nested body (one level deeper) *)
-  Variable rec_block : list item -> Z -> result.
+  Variable budget : option Z.
+  (* compile_block on a nested body (one level deeper): body, address, repetitions compiled so far *)
+  Variable rec_block : list item -> Z -> Z -> result.
 
-  (* metacommands.repeat: for _ in range(n): chunk = compile_block(body, addr); addr += len(chunk) *)
-  Fixpoint loop (n : nat) (body : list item) (a : Z) : result :=
+  (* metacommands.repeat: for _ in range(n): count the iteration (break with an error when over the
+     budget); chunk = compile_block(body, addr); addr += len(chunk) *)
+  Fixpoint loop (n : nat) (body : list item) (a c : Z) : result :=
     match n with
-    | O => Ok ([], body, [])
+    | O => Ok (([], c), body, [])
     | S k =>
-        do x <- rec_block body a; let '(bs, body', d) := x in
-        do y <- loop k body' (a + Zlen bs); let '(bs2, body'', d2) := y in
-        Ok (bs ++ bs2, body'', d ++ d2)
+        if over budget (c + 1) then Ok (([], c + 1), body, ["value-out-of-bounds"])
+        else
+          do x <- rec_block body a (c + 1); let '((bs, c2), body', d) := x in
+          do y <- loop k body' (a + Zlen bs) c2; let '((bs2, c3), body'', d2) := y in
+          Ok ((bs ++ bs2, c3), body'', d ++ d2)
     end.
 
-  Definition compile_item (env : string -> option Z) (a : Z) (it : item) : res (list Z * item * list string) :=
+  Definition compile_item (env : string -> option Z) (a c : Z) (it : item) : res ((list Z * Z) * item * list string) :=
     match it with
     | IWord ops =>
         do x <- cook (Some 16) false env a ops; let '(ws, ops', d) := x in
         let odd := Z.eqb (a mod 2) 1 in
         match ws with
-        | Some l => Ok ((if odd then [0] else []) ++ flat_map le16 l, IWord ops', d ++ (if odd then ["odd-address"] else []))
-        | None => Ok ([], IWord ops', d)
+        | Some l => Ok (((if odd then [0] else []) ++ flat_map le16 l, c), IWord ops', d ++ (if odd then ["odd-address"] else []))
+        | None => Ok (([], c), IWord ops', d)
         end
     | IByte ops =>
         do x <- cook (Some 8) false env a ops; let '(ws, ops', d) := x in
         match ws with
-        | Some l => Ok (l, IByte ops', d)
-        | None => Ok ([], IByte ops', d)
+        | Some l => Ok ((l, c), IByte ops', d)
+        | None => Ok (([], c), IByte ops', d)
         end
-    | IEven => Ok ((if Z.eqb (a mod 2) 1 then [0] else []), IEven, [])
+    | IEven => Ok (((if Z.eqb (a mod 2) 1 then [0] else []), c), IEven, [])
     | IInsn base ops =>
         do x <- compile_ops env a 0 ops; let '(opc, exts, ops', d) := x in
-        Ok (le16 (base + opc) ++ exts, IInsn base ops', d)
+        Ok ((le16 (base + opc) ++ exts, c), IInsn base ops', d)
     | IRepeat cnt body =>
         do x <- cook None true env a [cnt]; let '(ws, cnt', d) := x in
-        let cnt1 := match cnt' with [c] => c | _ => cnt end in
+        let cnt1 := match cnt' with [c0] => c0 | _ => cnt end in
         match ws with
         | Some [n] =>
-            do y <- loop (Z.to_nat n) body a; let '(bs, body', d2) := y in
-            Ok (bs, IRepeat cnt1 body', d ++ d2)
-        | _ => Ok ([], IRepeat cnt1 body, d)
+            do y <- loop (Z.to_nat n) body a c; let '(bsc, body', d2) := y in
+            Ok (bsc, IRepeat cnt1 body', d ++ d2)
+        | _ => Ok (([], c), IRepeat cnt1 body, d)
         end
-    | IEnd => Ok ([], IEnd, [])        (* never reached through [block]: CompilerStopIteration *)
+    | IEnd => Ok (([], c), IEnd, [])        (* never reached through [block]: CompilerStopIteration *)
     end.
 
   (* compile_block: statements in order at the running address; '.end' raises CompilerStopIteration,
      which THIS block catches (the rest of the block is not compiled and stays untouched) *)
-  Fixpoint block (env : string -> option Z) (its : list item) (a : Z) : result :=
+  Fixpoint block (env : string -> option Z) (its : list item) (a c : Z) : result :=
     match its with
-    | [] => Ok ([], [], [])
-    | IEnd :: rest => Ok ([], its, [])
+    | [] => Ok (([], c), [], [])
+    | IEnd :: rest => Ok (([], c), its, [])
     | it :: rest =>
-        do x <- compile_item env a it; let '(bs, it', d) := x in
-        do y <- block env rest (a + Zlen bs); let '(bs2, rest', d2) := y in
-        Ok (bs ++ bs2, it' :: rest', d ++ d2)
+        do x <- compile_item env a c it; let '((bs, c1), it', d) := x in
+        do y <- block env rest (a + Zlen bs) c1; let '((bs2, c2), rest', d2) := y in
+        Ok ((bs ++ bs2, c2), it' :: rest', d ++ d2)
     end.
 End Level.
 
 (* fuel = nesting depth of '.repeat' + 1 *)
-Fixpoint compile_block (fuel : nat) (env : string -> option Z) (its : list item) (a : Z) : result :=
+Fixpoint compile_block (budget : option Z) (fuel : nat) (env : string -> option Z) (its : list item) (a c : Z) : result :=
   match fuel with
   | O => OutOfFuel
-  | S f => block (compile_block f env) env its a
+  | S f => block budget (compile_block budget f env) env its a c
   end.
 
 (* the mechanism: ONE body token compiled n times, each time as the previous compilation left it *)
-Definition repeat_model (fuel : nat) (env : string -> option Z) (n : nat) (body : list item) (a : Z) : result :=
-  loop (compile_block fuel env) n body a.
+Definition repeat_model (budget : option Z) (fuel : nat) (env : string -> option Z) (n : nat) (body : list item) (a c : Z) : result :=
+  loop budget (compile_block budget fuel env) n body a c.
 
 (* the meaning: the body written out n times, compiled as one run of statements *)
 Definition written_out (n : nat) (body : list item) : list item := List.concat (List.repeat body n).
-Definition unrolled (fuel : nat) (env : string -> option Z) (n : nat) (body : list item) (a : Z) : result :=
-  compile_block fuel env (written_out n body) a.
+Definition unrolled (budget : option Z) (fuel : nat) (env : string -> option Z) (n : nat) (body : list item) (a c : Z) : result :=
+  compile_block budget fuel env (written_out n body) a c.
+
+(* the budget of the code, regenerated from the source *)
+Definition code_budget : option Z := Some GenTreeCachePins.max_repetitions.
+
+(* a run that ends normally with the count within the budget m: no iteration was refused *)
+Definition within (m : Z) (r : result) : Prop :=
+  exists bs k y d, r = Ok ((bs, k), y, d) /\ k <= m.
 
 (* what is observable: the bytes if no error was reported, else failure *)
 Inductive outcome := OOk (bs : list Z) | OFailed | OCrash (site : string) | OFuel.
 Definition outcome_of (r : result) : outcome :=
   match r with
-  | Ok (bs, _, []) => OOk bs
+  | Ok ((bs, _), _, []) => OOk bs
   | Ok (_, _, _ :: _) => OFailed
   | Err _ => OFailed
   | Crash s => OCrash s
